@@ -1,32 +1,53 @@
-(** bitmap.Fmt in the property's own words: every integer is shown as its bits, position 0
-    first, '0'/'1', a space between groups of 8 bits, a comma between the integers of a slice. *)
+(** What [bitmap.Fmt] prints, in its own words: the binary digits of every
+    integer, least significant first, [8*size] of them (two's complement for
+    the signed types), in groups of 8 separated by a space; the integers of a
+    slice separated by a comma.  For a bitmap ([]uint64) the digits are [flat]. *)
 From Coq Require Import ZArith List Bool.
 From Low Require Import Lib.Bits Lib.BitSeq.
 Import ListNotations.
 Open Scope Z_scope.
 
-Definition sdigit (b : bool) : Z := if b then 49 else 48.      (* '1' / '0' *)
+Definition bitchar (b : bool) : Z := if b then 49 else 48.   (* '1' / '0' *)
 
-Fixpoint sjoin (sep : list Z) (parts : list (list Z)) : list Z :=
-  match parts with
-  | [] => []
-  | [p] => p
-  | p :: rest => p ++ sep ++ sjoin sep rest
+(** [k] consecutive pieces of length [n] *)
+Fixpoint chunks {A} (n k : nat) (l : list A) : list (list A) :=
+  match k with
+  | O => []
+  | S k' => firstn n l :: chunks n k' (skipn n l)
   end.
 
-(** group k of an integer of [sz] bytes: bits 8k .. 8k+7 of its two's-complement bit sequence *)
-Definition spec_group (sz : nat) (x : Z) (k : nat) : list Z :=
-  map sdigit (firstn 8 (skipn (8 * k) (bits (8 * sz) x))).
-Definition spec_int (sz : nat) (x : Z) : list Z := sjoin [32] (map (spec_group sz x) (seq 0 sz)).
-(** [sz] in {1,2,4,8} = an integer kind; any other [sz] = not an integer type: panic, except for the
-    empty slice (no element to format) *)
-Definition int_kind (sz : Z) : bool := (sz =? 1) || (sz =? 2) || (sz =? 4) || (sz =? 8).
-Definition spec_Fmt (sz : Z) (isslice : bool) (xs : list Z) : option (list Z) :=
-  if int_kind sz then
-    if isslice then Some (sjoin [44] (map (spec_int (Z.to_nat sz)) xs))
-    else match xs with [x] => Some (spec_int (Z.to_nat sz) x) | _ => None end
-  else if isslice then match xs with [] => Some [] | _ => None end else None.
+Fixpoint intercalate (sep : list Z) (l : list (list Z)) : list Z :=
+  match l with
+  | [] => []
+  | x :: t => match t with [] => x | _ => x ++ sep ++ intercalate sep t end
+  end.
 
-(** the characters that are not separators *)
-Definition is_sep (c : Z) : bool := (c =? 32) || (c =? 44).
-Definition digits_of (s : list Z) : list Z := filter (fun c => negb (is_sep c)) s.
+Definition kind_bytes (kind : Z) : option nat :=
+  if (kind =? 0) || (kind =? 1) then Some 1%nat
+  else if (kind =? 2) || (kind =? 3) then Some 2%nat
+  else if (kind =? 4) || (kind =? 5) then Some 4%nat
+  else if (kind =? 6) || (kind =? 7) then Some 8%nat
+  else None.
+
+Definition spec_intFmt (sz : nat) (x : Z) : list Z :=
+  intercalate [32] (map (map bitchar) (chunks 8 sz (bits (8 * sz) x))).
+
+(** [None] = panic (not an integer type; an empty slice of any type prints as "") *)
+Definition spec_Fmt (kind : Z) (is_slice : bool) (vals : list Z) : option (list Z) :=
+  match kind_bytes kind with
+  | Some sz =>
+      if is_slice then Some (intercalate [44] (map (spec_intFmt sz) vals))
+      else match vals with [x] => Some (spec_intFmt sz x) | _ => None end
+  | None => if is_slice then match vals with [] => Some [] | _ => None end else None
+  end.
+
+(** the range of a kind: what the harness may send *)
+Definition kind_range (kind x : Z) : bool :=
+  match kind_bytes kind with
+  | None => true
+  | Some sz =>
+      let n := 8 * Z.of_nat sz in
+      if Z.even kind then (- 2 ^ (n - 1) <=? x) && (x <? 2 ^ (n - 1)) else (0 <=? x) && (x <? 2 ^ n)
+  end.
+
+Definition is_digit (c : Z) : bool := (c =? 48) || (c =? 49).
